@@ -1,3 +1,352 @@
-import JSight.Basic
+import JSight.Model.AllOf
+import JSight.Proofs.C12
+/-!
+C12 — allOf inheritance (`core/compile_catalog.go`, model `JSight/Model/AllOf.lean`).
+
+Property theorems only; the auxiliary definitions `keys`, `mark`, `depthOk`, `lineage`, `full` and all helper lemmas
+are in `JSight/Proofs/C12.lean`.
+
+* `keys l`            — the property keys of `l`, in order
+* `depthOk st f n`    — every allOf chain from `n` ends within `f` steps
+* `lineage st f n`    — the types contributing properties to `n` (lineages of the bases in written order, then `n`)
+* `full st sc`        — `{ sc with kids := expand st st.length sc }`
+-/
 namespace JSight.C12
+open JSight.AllOf
+
+/-- Well-formed store: type names are unique; every base named anywhere exists and is an object (and only objects
+    name bases); property keys are unique across the whole store (so nothing is overridden or duplicated); no
+    property is marked inherited initially; the allOf graph is acyclic (`depthOk` with fuel `st.length`) and no type is
+    reachable from a type along two different paths (no diamonds, no base named twice: the lineage has no
+    duplicates).  Every field is a bounded, decidable condition. -/
+structure WF (st : Store) : Prop where
+  names_unique : (st.map (·.1)).Nodup
+  bases_ok : ∀ p ∈ st, ∀ b ∈ p.2.bases, (st.get? b).map (·.isObject) = some true
+  obj : ∀ p ∈ st, p.2.isObject = false → p.2.bases = []
+  keys_unique : (st.flatMap fun p => keys p.2.kids).Nodup
+  unmarked : ∀ p ∈ st, ∀ q ∈ p.2.kids, q.from_ = none
+  acyclic : ∀ p ∈ st, depthOk st st.length p.1 = true
+  no_diamond : ∀ p ∈ st, (lineage st st.length p.1).Nodup
+
+/-- Well-formed schema outside the store (request / response / headers / query body) relative to a store: its bases
+    exist and are objects, its own keys are new and unique, its bases have pairwise disjoint lineages. -/
+structure WFExt (st : Store) (sc : Schema) : Prop where
+  obj : sc.isObject = false → sc.bases = []
+  bases_ok : ∀ b ∈ sc.bases, (st.get? b).map (·.isObject) = some true
+  keys_new : (keys sc.kids ++ st.flatMap fun p => keys p.2.kids).Nodup
+  no_diamond : (sc.bases.flatMap (lineage st st.length)).Nodup
+
+/-- `st'` with `memo` is a partially processed version of `st`: every type is either untouched or fully expanded
+    (`bases`, `isObject` never change), and the types in `memo` are expanded.  `st` itself with `[]`, and every
+    store reached from it by `processStore` / `process`, are such (`Partial.init`, `processStore_partial`,
+    `process_spec`). -/
+def Partial (st st' : Store) (memo : List Nat) : Prop :=
+  (∀ n, st'.get? n = st.get? n ∨ st'.get? n = (st.get? n).map (full st)) ∧
+  ∀ n ∈ memo, st'.get? n = (st.get? n).map (full st)
+
+theorem Partial.init (st : Store) : Partial st st [] := ⟨fun _ => Or.inl rfl, by simp⟩
+
+/-! ### From the plain conditions to what the proofs use -/
+
+theorem bases_ok_iff {st : Store} {b : Nat} :
+    (st.get? b).map (·.isObject) = some true ↔ ∃ ut, st.get? b = some ut ∧ ut.isObject = true := by
+  cases st.get? b <;> simp
+
+theorem WF.toWFS {st : Store} (h : WF st) : WFS st where
+  obj := fun n sc hg => h.obj (n, sc) (get?_mem hg)
+  bases := fun n sc hg b hb => bases_ok_iff.mp (h.bases_ok (n, sc) (get?_mem hg) b hb)
+  nbases := by
+    intro n sc hg
+    obtain ⟨l, hl⟩ : ∃ l, st.length = l + 1 := ⟨st.length - 1, by have := length_pos_of_get? hg; omega⟩
+    have hnd := h.no_diamond (n, sc) (get?_mem hg)
+    rw [hl, lineage_succ hg, List.nodup_append] at hnd
+    have hb := nodup_of_flatMap_lineage st l sc.bases hnd.1
+    have := nodup_length_le sc.bases (st.map (·.1)) hb (fun b hb' => by
+      rcases bases_ok_iff.mp (h.bases_ok (n, sc) (get?_mem hg) b hb') with ⟨ut, hu, _⟩
+      exact get?_name hu)
+    simpa using this
+  acyclic := fun n sc hg => h.acyclic (n, sc) (get?_mem hg)
+  once := by
+    intro n sc hg
+    rw [keys_expand st _ n sc hg]
+    exact nodup_flatMap_ownKeys st h.keys_unique _ (h.no_diamond (n, sc) (get?_mem hg))
+
+theorem WFExt.nodup {st : Store} {sc : Schema} (h : WFExt st sc) :
+    (keys (expand st (st.length + 1) sc)).Nodup := by
+  have hk := h.keys_new
+  rw [List.nodup_append] at hk
+  rw [expand_succ_inh, keys_append, keys_inh, List.nodup_append]
+  refine ⟨nodup_flatMap_ownKeys st hk.2.1 _ h.no_diamond, hk.1, ?_⟩
+  intro k hk1 k' hk2 hkk
+  subst hkk
+  rcases List.mem_flatMap.mp hk1 with ⟨a, _, hka⟩
+  exact hk.2.2 k hk2 k (mem_ownKeys_store hka) rfl
+
+theorem WFExt.nbases {st : Store} {sc : Schema} (h : WFExt st sc) : sc.bases.length ≤ st.length := by
+  have hb := nodup_of_flatMap_lineage st _ sc.bases h.no_diamond
+  have := nodup_length_le sc.bases (st.map (·.1)) hb (fun b hb' => by
+    rcases bases_ok_iff.mp (h.bases_ok b hb') with ⟨ut, hu, _⟩
+    exact get?_name hu)
+  simpa using this
+
+theorem fuel_ok {L fuel : Nat} (hf : L * (L + 2) + 2 ≤ fuel) : cost L L ≤ fuel := by
+  rw [cost_eq]; omega
+
+/-! ### (1) order and marks -/
+
+/-- the whole result, for any list of names that covers the store (repetitions and unknown names allowed): every
+    type is replaced by its expansion, nothing else changes -/
+theorem processStore_full (st : Store) (h : WF st) (order : List Nat) (hcover : ∀ n ∈ st.map (·.1), n ∈ order)
+    (fuel : Nat) (hf : st.length * (st.length + 2) + 2 ≤ fuel) :
+    ∃ st' memo, processStore fuel order st [] = .ok (st', memo) ∧
+      ∀ n, st'.get? n = (st.get? n).map (full st) := by
+  rcases processStore_run h.toWFS fuel (fuel_ok hf) order st [] (fun _ => Or.inl rfl) (by simp)
+    with ⟨st', memo, hrun, hpost, _, hall⟩
+  refine ⟨st', memo, hrun, ?_⟩
+  intro n
+  cases hg : st.get? n with
+  | none => rw [(good_none hpost.good).mpr hg]; rfl
+  | some sc =>
+    have := hall n (hcover n (get?_name hg))
+    unfold Done at this
+    rw [this, hg]
+
+/-- (1) ORDER + MARKS: processing a well-formed store, in ANY order of the type names, gives every type the
+    declarative expansion: inherited properties first (bases in written order, transitively), each marked with the
+    direct base, own properties last -/
+theorem processStore_spec (st : Store) (h : WF st) (order : List Nat) (hperm : order.Perm (st.map (·.1)))
+    (fuel : Nat) (hf : st.length * (st.length + 2) + 2 ≤ fuel) :
+    ∃ st' memo, processStore fuel order st [] = .ok (st', memo) ∧
+      ∀ n sc, st.get? n = some sc →
+        ∃ sc', st'.get? n = some sc' ∧ sc'.kids = expand st st.length sc ∧ sc'.bases = sc.bases ∧
+          sc'.isObject = sc.isObject := by
+  rcases processStore_full st h order (fun n hn => hperm.mem_iff.mpr hn) fuel hf with ⟨st', memo, hrun, hall⟩
+  refine ⟨st', memo, hrun, ?_⟩
+  intro n sc hg
+  exact ⟨full st sc, by rw [hall n, hg]; rfl, rfl, rfl, rfl⟩
+
+/-- the expansion read one level at a time: the inherited part is built from the *expansions* of the bases, in
+    written order, each property marked with the direct base; the own properties come last -/
+theorem expand_unfold_store (st : Store) (h : WF st) (n : Nat) (sc : Schema) (hg : st.get? n = some sc) :
+    expand st st.length sc =
+      (sc.bases.flatMap fun b => ((st.get? b).map fun ut => (expand st st.length ut).map (mark b)).getD []) ++
+        sc.kids := by
+  rw [expand_unfold h.toWFS hg]
+  congr 1
+  unfold inh
+  apply flatMap_congr'
+  intro b _
+  unfold expOf
+  cases st.get? b <;> rfl
+
+/-- marks: an inherited property carries the name of a direct base; the unmarked ones are exactly the own ones -/
+theorem marks_spec (st : Store) (h : WF st) (n : Nat) (sc : Schema) (hg : st.get? n = some sc) (p : Prpty)
+    (hp : p ∈ expand st st.length sc) :
+    (p.from_ = none ∧ p ∈ sc.kids) ∨ (∃ b ∈ sc.bases, p.from_ = some b ∧ p ∉ sc.kids) := by
+  rw [expand_unfold h.toWFS hg, List.mem_append] at hp
+  rcases hp with hp | hp
+  · rcases mem_inh_marked st hp with ⟨b, hb, hpb⟩
+    refine Or.inr ⟨b, hb, hpb, ?_⟩
+    intro hk
+    have := h.unmarked (n, sc) (get?_mem hg) p hk
+    rw [this] at hpb; cases hpb
+  · exact Or.inl ⟨h.unmarked (n, sc) (get?_mem hg) p hp, hp⟩
+
+/-! ### (2) order independence -/
+
+/-- (2) ORDER INDEPENDENCE: two processing orders give the same result for every type name -/
+theorem order_independent (st : Store) (h : WF st) (o1 o2 : List Nat)
+    (h1 : o1.Perm (st.map (·.1))) (h2 : o2.Perm (st.map (·.1)))
+    (f1 f2 : Nat) (hf1 : st.length * (st.length + 2) + 2 ≤ f1) (hf2 : st.length * (st.length + 2) + 2 ≤ f2) :
+    ∃ st1 m1 st2 m2, processStore f1 o1 st [] = .ok (st1, m1) ∧ processStore f2 o2 st [] = .ok (st2, m2) ∧
+      ∀ n, st1.get? n = st2.get? n := by
+  rcases processStore_full st h o1 (fun n hn => h1.mem_iff.mpr hn) f1 hf1 with ⟨st1, m1, hr1, ha1⟩
+  rcases processStore_full st h o2 (fun n hn => h2.mem_iff.mpr hn) f2 hf2 with ⟨st2, m2, hr2, ha2⟩
+  exact ⟨st1, m1, st2, m2, hr1, hr2, fun n => by rw [ha1, ha2]⟩
+
+/-! ### (3) once -/
+
+/-- (3) ONCE: in the result no property key appears twice in a type -/
+theorem once (st : Store) (h : WF st) (order : List Nat) (hperm : order.Perm (st.map (·.1)))
+    (fuel : Nat) (hf : st.length * (st.length + 2) + 2 ≤ fuel) (st' : Store) (memo : List Nat)
+    (hrun : processStore fuel order st [] = .ok (st', memo)) (n : Nat) (sc' : Schema)
+    (hg : st'.get? n = some sc') : ((sc'.kids).map (·.key)).Nodup := by
+  rcases processStore_full st h order (fun n hn => hperm.mem_iff.mpr hn) fuel hf with ⟨st1, memo1, hrun1, hall⟩
+  rw [hrun] at hrun1
+  injection hrun1 with hrun1
+  injection hrun1 with hst _
+  subst hst
+  rw [hall n] at hg
+  cases hg0 : st.get? n with
+  | none => simp [hg0] at hg
+  | some sc =>
+    simp [hg0] at hg
+    subst hg
+    exact h.toWFS.once n sc hg0
+
+/-! ### (4) bases unchanged -/
+
+/-- (4) BASES UNCHANGED: a base type's own result does not depend on who inherits from it — it is its own
+    expansion — and the heir's inherited part is built from the bases' *final* property lists -/
+theorem bases_unchanged (st : Store) (h : WF st) (order : List Nat) (hperm : order.Perm (st.map (·.1)))
+    (fuel : Nat) (hf : st.length * (st.length + 2) + 2 ≤ fuel) (st' : Store) (memo : List Nat)
+    (hrun : processStore fuel order st [] = .ok (st', memo))
+    (n : Nat) (sc : Schema) (hg : st.get? n = some sc) :
+    (∀ b ∈ sc.bases, ∃ ut ut', st.get? b = some ut ∧ st'.get? b = some ut' ∧
+        ut'.kids = expand st st.length ut ∧ ut'.bases = ut.bases) ∧
+    ∃ sc', st'.get? n = some sc' ∧
+      sc'.kids = (sc.bases.flatMap fun b => ((st'.get? b).map fun ut' => ut'.kids.map (mark b)).getD []) ++ sc.kids := by
+  rcases processStore_full st h order (fun n hn => hperm.mem_iff.mpr hn) fuel hf with ⟨st1, memo1, hrun1, hall⟩
+  rw [hrun] at hrun1
+  injection hrun1 with hrun1
+  injection hrun1 with hst _
+  subst hst
+  constructor
+  · intro b hb
+    rcases h.toWFS.bases n sc hg b hb with ⟨ut, hu, _⟩
+    exact ⟨ut, full st ut, hu, by rw [hall b, hu]; rfl, rfl, rfl⟩
+  · refine ⟨full st sc, by rw [hall n, hg]; rfl, ?_⟩
+    show expand st st.length sc = _
+    rw [expand_unfold_store st h n sc hg]
+    congr 1
+    apply flatMap_congr'
+    intro b _
+    rw [hall b]
+    cases st.get? b <;> rfl
+
+/-! ### (5) schemas outside the store -/
+
+/-- the store after `processStore` is a partially processed version of the original (with its memo) -/
+theorem processStore_partial (st : Store) (h : WF st) (order : List Nat)
+    (fuel : Nat) (hf : st.length * (st.length + 2) + 2 ≤ fuel) :
+    ∃ st' memo, processStore fuel order st [] = .ok (st', memo) ∧ Partial st st' memo := by
+  rcases processStore_run h.toWFS fuel (fuel_ok hf) order st [] (fun _ => Or.inl rfl) (by simp)
+    with ⟨st', memo, hrun, hpost, hm, _⟩
+  exact ⟨st', memo, hrun, hpost.good, hm⟩
+
+/-- (5) a schema outside the store that names bases gets its declarative expansion, whether it is processed before
+    the store (`st' = st`, `memo = []`), after it, or in between; the store stays a partially processed version of
+    the original, so (1) still holds when the store is processed afterwards.  (Fuel for `expand`: `st.length + 1`,
+    one more than for the types of the store, since the schema sits on top of the deepest chain.) -/
+theorem process_spec (st : Store) (h : WF st) (sc : Schema) (hsc : WFExt st sc) (st' : Store) (memo : List Nat)
+    (hst' : Partial st st' memo) (fuel : Nat) (hf : st.length * (st.length + 2) + 2 ≤ fuel) :
+    ∃ st'' memo', process fuel st' memo sc = .ok (st'', memo', { sc with kids := expand st (st.length + 1) sc }) ∧
+      Partial st st'' memo' := by
+  by_cases hobj : sc.isObject = true
+  · rcases process_ext h.toWFS fuel st' memo sc hst'.1 hst'.2 hobj
+      (fun b hb => bases_ok_iff.mp (hsc.bases_ok b hb)) hsc.nbases hsc.nodup (fuel_ok hf)
+      with ⟨st'', memo', hproc, hpost⟩
+    exact ⟨st'', memo', hproc, hpost.good, done_of_post hst'.2 hpost⟩
+  · have hobj' : sc.isObject = false := by simpa using hobj
+    obtain ⟨f, rfl⟩ : ∃ f, fuel = f + 1 := ⟨fuel - 1, by omega⟩
+    refine ⟨st', memo, ?_, hst'⟩
+    rw [process, expand_no_bases st _ sc (hsc.obj hobj')]
+    simp [hobj']
+
+/-- the same in the form "whatever `process` returns has the expansion as its properties" -/
+theorem process_spec' (st : Store) (h : WF st) (sc : Schema) (hsc : WFExt st sc) (st' : Store) (memo : List Nat)
+    (hst' : Partial st st' memo) (fuel : Nat) (hf : st.length * (st.length + 2) + 2 ≤ fuel)
+    (st'' : Store) (memo' : List Nat) (sc' : Schema)
+    (hrun : process fuel st' memo sc = .ok (st'', memo', sc')) :
+    sc'.kids = expand st (st.length + 1) sc ∧ sc'.bases = sc.bases := by
+  rcases process_spec st h sc hsc st' memo hst' fuel hf with ⟨st2, memo2, hproc, _⟩
+  rw [hrun] at hproc
+  injection hproc with hproc
+  injection hproc with _ hproc
+  injection hproc with _ hsc'
+  subst hsc'
+  exact ⟨rfl, rfl⟩
+
+/-! ### (6) rejections
+
+The schema `sc` (of the store or outside) names the bases `pre ++ b :: post`; the bases written after `b` are
+inherited first and are fine (`hpost`, `hnd`); then `b` is rejected. -/
+
+/-- an undefined base is rejected -/
+theorem undefined_base_rejected (st : Store) (h : WF st) (st' : Store) (memo : List Nat) (hst' : Partial st st' memo)
+    (sc : Schema) (pre : List Nat) (b : Nat) (post : List Nat)
+    (hobj : sc.isObject = true) (hb : sc.bases = pre ++ b :: post)
+    (hpost : ∀ b' ∈ post, (st.get? b').map (·.isObject) = some true)
+    (hnd : (keys (expand st (st.length + 1) { sc with bases := post })).Nodup)
+    (fuel : Nat) (hf : st.length * (st.length + 2) + post.length + 5 ≤ fuel)
+    (hundef : st.get? b = none) :
+    process fuel st' memo sc = .error (.notFound b) := by
+  rw [expand_succ_inh] at hnd
+  rcases process_upto h.toWFS fuel st' memo sc pre b post hst'.1 hst'.2 hobj hb
+    (fun b' hb' => bases_ok_iff.mp (hpost b' hb')) hnd (by rw [cost_eq]; omega)
+    with ⟨st1, memo1, f', hp1, hf', hrun⟩
+  rw [hrun]
+  exact inheritAll_notFound st1 memo1 _ b _ f' (by omega) ((good_none hp1.good).mpr hundef)
+
+/-- a base that is not an object is rejected -/
+theorem non_object_base_rejected (st : Store) (h : WF st) (st' : Store) (memo : List Nat)
+    (hst' : Partial st st' memo)
+    (sc : Schema) (pre : List Nat) (b : Nat) (post : List Nat)
+    (hobj : sc.isObject = true) (hb : sc.bases = pre ++ b :: post)
+    (hpost : ∀ b' ∈ post, (st.get? b').map (·.isObject) = some true)
+    (hnd : (keys (expand st (st.length + 1) { sc with bases := post })).Nodup)
+    (fuel : Nat) (hf : st.length * (st.length + 2) + post.length + 5 ≤ fuel)
+    (ut : Schema) (hg : st.get? b = some ut) (hno : ut.isObject = false) :
+    process fuel st' memo sc = .error (.notObject b) := by
+  rw [expand_succ_inh] at hnd
+  rcases process_upto h.toWFS fuel st' memo sc pre b post hst'.1 hst'.2 hobj hb
+    (fun b' hb' => bases_ok_iff.mp (hpost b' hb')) hnd (by rw [cost_eq]; omega)
+    with ⟨st1, memo1, f', hp1, hf', hrun⟩
+  rw [hrun]
+  rcases good_get hp1.good hg with ⟨ut1, hu1, hcase⟩
+  exact inheritAll_notObject st1 memo1 _ b _ f' ut1 (by omega) hu1
+    (by rcases hcase with rfl | rfl <;> simp [full, hno])
+
+/-- overriding an inherited property is rejected: if `b` has (own or inherited) a property with the key of an own,
+    unmarked property of `sc`, the result is an override error for `b` and some such key -/
+theorem override_rejected (st : Store) (h : WF st) (st' : Store) (memo : List Nat) (hst' : Partial st st' memo)
+    (sc : Schema) (pre : List Nat) (b : Nat) (post : List Nat)
+    (hobj : sc.isObject = true) (hb : sc.bases = pre ++ b :: post)
+    (hpost : ∀ b' ∈ post, (st.get? b').map (·.isObject) = some true)
+    (hnd : (keys (expand st (st.length + 1) { sc with bases := post })).Nodup)
+    (fuel : Nat) (hf : st.length * (st.length + 2) + post.length + 5 ≤ fuel)
+    (ut : Schema) (hg : st.get? b = some ut) (hobjb : ut.isObject = true)
+    (v p : Prpty) (hv : v ∈ expand st st.length ut)
+    (hfind : sc.kids.find? (·.key == v.key) = some p) (hp : p.from_ = none) :
+    ∃ k, process fuel st' memo sc = .error (.override k b) ∧
+      k ∈ keys (expand st st.length ut) ∧ k ∈ keys sc.kids := by
+  rw [expand_succ_inh] at hnd
+  rcases process_upto h.toWFS fuel st' memo sc pre b post hst'.1 hst'.2 hobj hb
+    (fun b' hb' => bases_ok_iff.mp (hpost b' hb')) hnd (by rw [cost_eq]; omega)
+    with ⟨st1, memo1, f', hp1, hf', hrun⟩
+  have hnd' := hnd
+  rw [keys_append, List.nodup_append] at hnd'
+  have hvk : v.key ∈ keys sc.kids :=
+    mem_keys.mpr ⟨p, List.mem_of_find?_eq_some hfind, by simpa using List.find?_some hfind⟩
+  have hfind' : (inh st post ++ sc.kids).find? (·.key == v.key) = some p := by
+    rw [List.find?_append, find?_key_none (fun hk => hnd'.2.2 _ hk _ hvk rfl)]
+    simpa using hfind
+  rcases inheritAll_override h.toWFS st1 memo1 { sc with kids := inh st post ++ sc.kids } b pre.reverse f' ut v p
+    hp1.good (done_of_post hst'.2 hp1) hf' hg hobjb hv hfind' hp with ⟨k, hk, hkb, q, hq, hqn⟩
+  refine ⟨k, by rw [hrun, hk], hkb, ?_⟩
+  have hq' : (inh st post ++ sc.kids).find? (·.key == k) = some q := hq
+  have hqm := List.mem_of_find?_eq_some hq'
+  have hqk : q.key = k := by simpa using List.find?_some hq'
+  rcases List.mem_append.mp hqm with hqi | hqo
+  · rcases mem_inh_marked st hqi with ⟨b', _, hb'⟩
+    rw [hqn] at hb'; cases hb'
+  · exact mem_keys.mpr ⟨q, hqo, hqk⟩
+
+/-- … and it names exactly the key `v.key` when that is the only clash with `b` -/
+theorem override_rejected_exact (st : Store) (h : WF st) (st' : Store) (memo : List Nat)
+    (hst' : Partial st st' memo)
+    (sc : Schema) (pre : List Nat) (b : Nat) (post : List Nat)
+    (hobj : sc.isObject = true) (hb : sc.bases = pre ++ b :: post)
+    (hpost : ∀ b' ∈ post, (st.get? b').map (·.isObject) = some true)
+    (hnd : (keys (expand st (st.length + 1) { sc with bases := post })).Nodup)
+    (fuel : Nat) (hf : st.length * (st.length + 2) + post.length + 5 ≤ fuel)
+    (ut : Schema) (hg : st.get? b = some ut) (hobjb : ut.isObject = true)
+    (v p : Prpty) (hv : v ∈ expand st st.length ut)
+    (hfind : sc.kids.find? (·.key == v.key) = some p) (hp : p.from_ = none)
+    (honly : ∀ k ∈ keys (expand st st.length ut), k ∈ keys sc.kids → k = v.key) :
+    process fuel st' memo sc = .error (.override v.key b) := by
+  rcases override_rejected st h st' memo hst' sc pre b post hobj hb hpost hnd fuel hf ut hg hobjb v p hv hfind hp
+    with ⟨k, hk, hk1, hk2⟩
+  rw [hk, honly k hk1 hk2]
+
 end JSight.C12
